@@ -112,7 +112,9 @@ def run(ctx, spec, units, violations, inconcl, meta):
                 else:
                     inconcl.append(('M:' + sc, d['reason']))
             for f in d['findings']:
-                violations.append(make_violation(prop, sc.replace('@ind', ''), f))
+                v = make_violation(prop, sc.replace('@ind', ''), f)
+                v['inductive'] = sc.endswith('@ind')
+                violations.append(v)
 
 
 def validate_translator(root, mir, mmeta, inconcl):
